@@ -16,7 +16,7 @@ RULE = ('resolver: weekday/duration/year/month/month-day/week/definite TIMEXes x
         '1-3 date-range constraints ((s,e,PnD), YYYY-MM, YYYY) and 0-2 time-range constraints inside a 2-year window. '
         'non-trivial = the call returned at least one value; distinct = distinct (timex set, constraints, reference).')
 EXHAUSTIVE = False
-JOB_TIMEOUT = 900
+JOB_TIMEOUT = 5400
 
 D_RE = re.compile(r'^(\d{4})-(\d{2})-(\d{2})$')
 T_RE = re.compile(r'^(\d{2}):(\d{2}):(\d{2})$')
